@@ -312,3 +312,20 @@ mod compat {
         )
     }
 }
+
+// ---- verification hook (compiled only with RUSTFLAGS="--cfg lelwel_verif") ----
+// Exposes the private position conversion to the verification harness; calls the
+// functions above and nothing else.
+#[cfg(lelwel_verif)]
+pub fn verif_position_to_offset(source: &str, line: u32, character: u32) -> usize {
+    let file = SimpleFile::new("verif", source);
+    compat::position_to_offset(&file, &lsp_types::Position::new(line, character))
+}
+
+#[cfg(lelwel_verif)]
+pub fn verif_span_to_range(source: &str, start: usize, end: usize) -> Option<(u32, u32, u32, u32)> {
+    let file = SimpleFile::new("verif", source);
+    // `compat::span_to_range` unwraps: the caller observes that as a panic
+    let r = compat::span_to_range(&file, &(start..end));
+    Some((r.start.line, r.start.character, r.end.line, r.end.character))
+}
